@@ -325,7 +325,8 @@ pub fn check_ix(c: &IxCase, l: &mut Local) -> Result<(), String> {
                 let mut w = h.w.clone();
                 let o = w.exec(&w.ix_increase(p, c.liquidity, ia, ib, v2));
                 if !o.ok() {
-                    if !OVERFLOW_CODES.contains(&o.code().unwrap()) {
+                    // the exact cost fits 64 bits here, so TokenMaxExceeded (6017, also the program's "amount exceeds u64" code) is never legitimate
+                    if !OVERFLOW_CODES.contains(&o.code().unwrap()) || o.code() == Some(6017) {
                         return Err(format!("increase of L={} with maxima equal to the exact cost ({ca}, {cb}) [requested from the owner: ({ia}, {ib})] failed: {:?} {:?}", c.liquidity, o.result, o.logs.last()));
                     }
                     l.count("increase_overflow_rejected");
@@ -361,7 +362,7 @@ pub fn check_ix(c: &IxCase, l: &mut Local) -> Result<(), String> {
             let mut w = h.w.clone();
             let o = w.exec(&w.ix_decrease(p, dl, ea, eb, v2));
             if !o.ok() {
-                if !OVERFLOW_CODES.contains(&o.code().unwrap()) {
+                if !OVERFLOW_CODES.contains(&o.code().unwrap()) || o.code() == Some(6017) {
                     return Err(format!("decrease of L={dl} with minima equal to what the owner receives ({ea}, {eb}) of the exact return ({ra}, {rb}) failed: {:?} {:?}", o.result, o.logs.last()));
                 }
             } else {
